@@ -14,7 +14,7 @@ DST = "/verif/seeded"
 
 def parse_logs():
     res = {}
-    for f in sorted(glob.glob("/tmp/evalres/round1/*.log")) + sorted(glob.glob("/tmp/evalres/*.log")):
+    for f in sorted(glob.glob("/tmp/evalres/round1/*.log")) + sorted(glob.glob("/tmp/evalres/round2/*.log")) + sorted(glob.glob("/tmp/evalres/*.log")):
         for line in open(f, errors="replace"):
             m = re.match(r"seed=(\S+) \| (.*)$", line.strip())
             if m:
